@@ -296,9 +296,27 @@ def run(rd, emit, log, enum_values, ti_default):
     z = compact(strip_comments(rd('lib/remote/zone.cpp')))
     shapes['Zone::IsChildOf'] = re.search(
         r'bool ?Zone::IsChildOf\(const ?Zone::Ptr&(' + W + r')\)\{Zone::Ptr ?(' + W + r')=this;while\(\2\)\{if\(\2==\1\)return ?true;\2=\2->GetParent\(\);\}return ?false;\}', z) is not None
+    # origin construction in MessageHandler: which claimed "originZone" is honoured.  Recognised rule (names free):
+    #   origin->FromClient = this;
+    #   if (m_Endpoint) { if (m_Endpoint->GetZone() != Zone::GetLocalZone()) origin->FromZone = m_Endpoint->GetZone();
+    #                     else origin->FromZone = Zone::GetByName(message->Get("originZone")); }
+    origin_rule = None
+    mh = fn_body(strip_comments(rd('lib/remote/jsonrpcconnection.cpp')), 'MessageHandler')
+    if mh is not None:
+        mc = compact(drop_logs(mh))
+        mo = re.search(r'(' + W + r')->FromClient=this;(.*?)Value ?' + W + r';', mc)
+        if mo:
+            o = re.escape(mo.group(1))
+            blk = mo.group(2)
+            rule = (r'if\(m_Endpoint\)\{if\((?:m_Endpoint->GetZone\(\)!=' + LOCAL + r'|' + LOCAL + r'!=m_Endpoint->GetZone\(\))\)\{?'
+                    + o + r'->FromZone=m_Endpoint->GetZone\(\);\}?else\{? ?' + o + r'->FromZone=Zone::GetByName\(' + W + r'->Get\("originZone"\)\);\}?\}')
+            if re.fullmatch(rule, blk):
+                origin_rule = 'claim_iff_sender_in_local_zone'
+        # FromZone must not be assigned anywhere else in the handler
+        if origin_rule and len(re.findall(r'->FromZone=', mc)) != 2:
+            origin_rule = None
+    shapes['MessageHandler origin'] = origin_rule is not None
     j = compact(strip_comments(rd('lib/remote/jsonrpcconnection.cpp')))
-    shapes['MessageHandler origin'] = ('origin->FromClient=this;if(m_Endpoint){if(m_Endpoint->GetZone()!=Zone::GetLocalZone())origin->FromZone=m_Endpoint->GetZone();'
-                                        'else ?origin->FromZone=Zone::GetByName(message->Get("originZone"));}').replace(' ?', '') in j.replace('else origin', 'elseorigin')
     shapes['ctor endpoint iff authenticated'] = 'if(authenticated)m_Endpoint=Endpoint::GetByName(identity);' in j
     e = compact(strip_comments(rd('lib/remote/endpoint.cpp')))
     shapes['Endpoint requires zone'] = re.search(r'void ?Endpoint::OnAllConfigLoaded\(\)\{[^}]*if\(!m_Zone\)BOOST_THROW_EXCEPTION\(', e) is not None
@@ -311,6 +329,8 @@ def run(rd, emit, log, enum_values, ti_default):
     body += ';\n'.join('  ("%s", (%s, "%s", "%s"))' % (m, 'true' if ep else 'false', p, fl) for m, ep, p, fl in rows)
     body += '\n].\n\n'
     body += 'Definition f_mz_registered : nat := %d.\n' % len(regs)
+    body += '(* which claimed originZone MessageHandler honours; None = shape not recognised (compared by the run only) *)\n'
+    body += 'Definition f_mz_origin_rule : option string := %s.\n' % ('Some "%s"' % origin_rule if origin_rule else 'None')
     for k, v in shapes.items():
         body += 'Definition f_mz_shape_%s : bool := %s.\n' % (re.sub(r'\W+', '_', k), 'true' if v else 'false')
     emit('Facts_c13.v', body)
